@@ -399,6 +399,39 @@ def schema_of(setting, raw):
 
 
 _DUMP_CACHE = {}
+HYP = {}        # (setting, value kind) -> [held, violated]   : the hypothesis schema n (dump n v) = some v, measured
+HYP_BAD = []    # concrete (setting, kind, value) where the real schema/dump pair does not satisfy it
+
+
+def value_kind(v):
+    if v is None:
+        return "None"
+    if isinstance(v, bool):
+        return "bool"
+    if isinstance(v, int):
+        return "int:zero" if v == 0 else "int"
+    if isinstance(v, float):
+        return "float:zero" if v == 0 else "float"
+    if isinstance(v, str):
+        return "str:empty" if v == "" else "str"
+    if isinstance(v, dict):
+        return f"{type(v).__name__}:empty" if not v else type(v).__name__
+    if isinstance(v, (list, tuple)):
+        return "list:empty" if not v else "list"
+    return type(v).__name__
+
+
+def record_hypothesis(name, setting, stored):
+    """Evaluate the hypothesis of `read_write_id` on the REAL schema/dump pair for one stored value."""
+    raw = dump_of(setting, stored)
+    ok, back = schema_of(setting, raw)
+    held = ok and canon(back) == canon(stored)
+    cell = HYP.setdefault((name, value_kind(stored)), [0, 0])
+    cell[0 if held else 1] += 1
+    if not held and len(HYP_BAD) < 50:
+        HYP_BAD.append({"setting": name, "kind": value_kind(stored), "value": repr(stored)[:120],
+                        "dumped": repr(raw)[:120], "schema": "rejects" if not ok else repr(back)[:120]})
+    return held
 
 
 def dump_of(setting, value):
@@ -484,6 +517,7 @@ def define_registry(m, cs, extra_olds=()):
     for n, s in cs.items():
         raw = dump_of(s, s.default)
         ok, v = schema_of(s, raw)
+        record_hypothesis(n, s, s.default)
         m.send(f"dmp {n} {I(s.default)} {I(raw)}", "ok")
         m.send(f"sch {n} {I(raw)} {I(v) if ok else 'x'}", "ok")
         m.base.add(("dmp", n, I(s.default)))
@@ -502,6 +536,8 @@ def declare_tables(m, cs, ref, names):
         if ("dmp", n, I(s.value)) in m.base:
             continue
         raw = dump_of(ref[n], s.value)
+        if n != "versions":
+            record_hypothesis(n, ref[n], s.value)
         m.send(f"dmp {n} {I(s.value)} {I(raw)}", "ok")
         ok, v = schema_of(ref[n], raw)
         m.send(f"sch {n} {I(raw)} {I(v) if ok else 'x'}", "ok")
@@ -1235,15 +1271,66 @@ def limit_failures(ctx, per_key=3):
     ctx.fail = fail
 
 
+def registry_provenance(ctx):
+    """Where every setting of the registry comes from: framework (fwSettings) or a built-in plugin's defineSettings
+    hook; the registry under test must contain all of them (and nothing else)."""
+    from armi import getApp, settings
+    from armi.settings import fwSettings
+    from armi.settings.setting import Setting
+    app = getApp()
+    prov = {"framework (armi.settings.fwSettings)": sorted(s.name for s in fwSettings.getFrameworkSettings())}
+    for plugin in app.pluginManager.get_plugins():
+        hook = getattr(plugin, "defineSettings", None)
+        if hook is None:
+            continue
+        try:
+            defs = hook() or []
+        except Exception:
+            continue
+        names = sorted(d.name for d in defs if isinstance(d, Setting))
+        if names:
+            prov[getattr(plugin, "__name__", type(plugin).__name__)] = names
+    declared = {n for names in prov.values() for n in names}
+    registry = {n for n, _ in settings.Settings().items()}
+    ctx.extra["registry_provenance"] = {k: {"count": len(v), "settings": v} for k, v in prov.items()}
+    ctx.extra["registry_total"] = len(registry)
+    ctx.extra["registry_from_plugins"] = len(declared) - len(prov["framework (armi.settings.fwSettings)"])
+    if declared != registry:
+        ctx.fail("registry-incomplete", "every setting defined by the framework and its built-in plugins is in the Settings registry",
+                 {"missing": sorted(declared - registry)[:10], "extra": sorted(registry - declared)[:10]})
+    return declared, registry
+
+
+def hypothesis_evidence(ctx, registry):
+    """The per-value hypothesis of read_write_id, as measured on the real schema/dump pair."""
+    by_setting = {}
+    for (n, kind), (held, bad) in sorted(HYP.items()):
+        by_setting.setdefault(n, {})[kind] = {"held": held, "violated": bad}
+    ctx.extra["hypothesis_schema_dump_roundtrip"] = {
+        "statement": "schema n (dump n v) = some v  (Setting.dump -> ruamel dump/load -> the setting's schema), per stored value v",
+        "pairs_setting_x_kind": len(HYP),
+        "values_held": sum(h for h, _ in HYP.values()),
+        "values_violated": sum(b for _, b in HYP.values()),
+        "settings_covered": len(by_setting),
+        "settings_not_covered": sorted(set(registry) - set(by_setting) - {"versions"}),
+        "violations": HYP_BAD,
+        "by_setting": by_setting,
+    }
+
+
 def run(ctx):
     limit_failures(ctx)
+    HYP.clear()
+    del HYP_BAD[:]
     ctx.rule = ("registry: one case per (setting, generated raw value, styles, user-file names) and per random subset of "
                 "settings changed together; reader: per document (old names, unknown names, invalid values, prior state); "
                 "renamer: per generated registry with expiry dates; modified: per (prior state, newSettings, assignment history); "
                 "distinct = distinct (setting, interned value, styles, user list) tuples; non-trivial = at least one accepted "
                 "assignment or an all-default state")
     with mute():
+        declared, registry = registry_provenance(ctx)
         cs0, ref = run_registry(ctx)
+        hypothesis_evidence(ctx, registry)
         run_reader(ctx, cs0, ref)
         run_modified(ctx, cs0, ref)
         run_objects(ctx, ref)
